@@ -12,7 +12,7 @@ reported as exhaustive:false with the depth TLC had completed.
 import json, os, re, shutil, subprocess, sys, tempfile, time, hashlib
 from concurrent.futures import ThreadPoolExecutor
 
-VERIF = '/verif'
+VERIF = os.environ.get('VERIF_HOME', '/verif')
 REPO = os.environ.get('VERIF_REPO', '/repo')
 OUT = os.environ.get('VERIF_OUT', VERIF)
 JAR = '/opt/veriftools/tla/tla2tools.jar:/opt/veriftools/tla/CommunityModules-deps.jar'
